@@ -81,8 +81,8 @@ func ROverlapNeg(c *core.Ctx) {
 		return found
 	}
 	ord := map[string]int{}
-	var doBlock func(kind string, body *ast.BlockStmt)
-	doBlock = func(kind string, body *ast.BlockStmt) {
+	var doBlock func(kind string, body *ast.BlockStmt, recv string)
+	doBlock = func(kind string, body *ast.BlockStmt, recv string) {
 		ast.Inspect(body, func(x ast.Node) bool {
 			ifs, ok := x.(*ast.IfStmt)
 			if !ok {
@@ -160,18 +160,51 @@ func ROverlapNeg(c *core.Ctx) {
 		})
 	}
 	n := 0
-	ast.Inspect(fd.Body, func(x ast.Node) bool {
-		ifs, ok := x.(*ast.IfStmt)
-		if !ok {
-			return true
-		}
-		k := kindOfCond(ifs.Cond)
-		if k == "" {
-			return true
-		}
+	// a block is the body of `if <recv>.T == NtXloop … {` or of the arm `case <recv>.T == NtXloop …:` of a
+	// tagless switch; when that body only hands the tests to a method of the node (per-kind helper),
+	// the helper's body is the block
+	block := func(k string, body *ast.BlockStmt) {
 		n++
-		doBlock(k, ifs.Body)
-		// else-if chains are visited by Inspect as nested IfStmt; do not descend twice into this body
+		doBlock(k, body, recv)
+		ast.Inspect(body, func(y ast.Node) bool {
+			call, ok := y.(*ast.CallExpr)
+			if !ok {
+				return true
+			}
+			fn := core.Callee(info, call)
+			if fn == nil || fn.Pkg() != syn.Types {
+				return true
+			}
+			sel, ok := ast.Unparen(call.Fun).(*ast.SelectorExpr)
+			if !ok || types.ExprString(sel.X) != recv {
+				return true
+			}
+			hd, _ := p.DeclOf(fn)
+			if hd == nil || hd.Body == nil || hd == fd || hd.Recv == nil || len(hd.Recv.List) != 1 || len(hd.Recv.List[0].Names) != 1 {
+				return true
+			}
+			if !strings.Contains(strings.ToLower(core.BaseName(fn)), "overlap") {
+				return true
+			}
+			doBlock(k, hd.Body, hd.Recv.List[0].Names[0].Name)
+			return true
+		})
+	}
+	ast.Inspect(fd.Body, func(x ast.Node) bool {
+		switch y := x.(type) {
+		case *ast.IfStmt:
+			if k := kindOfCond(y.Cond); k != "" {
+				block(k, y.Body)
+			}
+		case *ast.CaseClause:
+			for _, e := range y.List {
+				if isBoolExpr(info, e) {
+					if k := kindOfCond(e); k != "" {
+						block(k, &ast.BlockStmt{List: y.Body})
+					}
+				}
+			}
+		}
 		return true
 	})
 	if n < 3 {
